@@ -511,7 +511,8 @@ CORPUS = [
 def run(ctx):
     quick = ctx.tier == 'quick'
     ctx.cov['rule'] = (
-        'seeded multi-thread programs: a main thread spawning 1-16 Cello Threads (quick: counts drawn from '
+        'seeded multi-thread programs: 1-16 Cello Threads in a spawn tree (each created, joined and read by the main thread or by '
+        'a lower-numbered worker; quick: counts drawn from '
         '{1,2,3,4,5,7,8,12,15,16}; thorough: every count 1..16), each thread a random program over probe allocation / '
         'unroot / forced collection, thread-local storage set/get/mem/rem, nested try/throw/catch (0-2 classes, '
         'propagation through non-matching handlers), container work (Array, Table, List, Tree, allocation-heavy '
@@ -650,6 +651,7 @@ def run(ctx):
     ctx.cov['instruction_histogram'] = dict(sorted(hist.items()))
     ctx.cov['program_tokens'] = {'min': min(len(c.split()) for c in cases), 'max': max(len(c.split()) for c in cases),
                                  'mean': round(sum(len(c.split()) for c in cases) / max(1, len(cases)), 1)}
+    ctx.cov['cases_with_threads_created_by_workers'] = sum(1 for c in cases if any(t[0] == 'S' for p in c.split('|')[3:] for t in p.split()))
     ctx.cov['cases_with_collector_owned_thread_objects'] = sum(1 for c in cases if c.split('|')[0].endswith('g'))
 
     if not quick and not os.environ.get('VERIF_NO_TSAN'):
